@@ -116,7 +116,9 @@ func (backupManager *BackupManager) DoRsyncBackup() error {
 		return err
 	}
 
-	cmd := exec.Command("rsync", "-avz", "--delete", backupManager.backupSourceLocation, backupManager.backupLocation)
+	// badger writes through memory mapped, preallocated files: their size never changes and their modification
+	// time is not updated by every write, so rsync's quick check (size + mtime) would skip files that did change
+	cmd := exec.Command("rsync", "-avz", "--delete", "--ignore-times", backupManager.backupSourceLocation, backupManager.backupLocation)
 	err = cmd.Run()
 	return err
 }
